@@ -34,6 +34,7 @@ fn required(plan: &Plan) -> Vec<String> {
             v.push(format!("form:{}:{}", d.label, f));
         }
     }
+    v.push("next-generation:compared".into());
     v
 }
 
@@ -74,6 +75,32 @@ pub fn run<E: Entry>(ctx: &mut Ctx) {
             break;
         }
         last = Some(v);
+    }
+    // "a history that mixes forms behaves exactly like one that uses a single form": that
+    // includes what the two regions hand on to the next generation (statistics of coded
+    // regions, sizes). Merge a region from each and feed both the same items.
+    if !ctx.failed && !a.issued.is_empty() {
+        let absorbed: Vec<E::V> = a.issued.iter().map(|x| x.1.clone()).collect();
+        let next_a = merged::<E>(ctx, "a2", &[&a.r]);
+        let next_t = merged::<E>(ctx, "canonical2", &[&t.r]);
+        if let (Some(mut a2), Some(mut t2)) = (next_a, next_t) {
+            for k in 0..absorbed.len().min(12) {
+                let v = &absorbed[(k * 5 + 1) % absorbed.len()];
+                if !push_both(ctx, &mut a2, &mut t2, v, 0, 0, "form-changes-next-generation", "regions merged from a mixed-form history and from a canonical-form history") {
+                    break;
+                }
+                if let (Some(ha), Some(ht)) = (a2.heap(), t2.heap()) {
+                    if ha.used != ht.used {
+                        ctx.fail(
+                            "form-changes-next-generation",
+                            format!("regions merged from a mixed-form and a canonical-form history account {} vs {} used bytes after the same pushes", ha.used, ht.used),
+                        );
+                        break;
+                    }
+                }
+            }
+            ctx.cover("next-generation:compared");
+        }
     }
     ctx.end_history();
 }
